@@ -114,7 +114,7 @@ Print Assumptions C04_members_each_once.
    behind the loop when it ends or is broken out of, behind the call when the body returns.  The statement [Sem.exec ... = ROk sig ss']
    is the reference run whose count and values the theorems above describe. *)
 Theorem C04_range_loop_compiled_runs_as_its_source_says :
-  forall rt mt (inr : bool) v a b body, plain_rval mt a = true -> plain_rval mt b = true -> SimpleB rt mt true inr body ->
+  forall rt mt, bodies_ok rt mt -> forall (inr : bool) v a b body, plain_rval mt a = true -> plain_rval mt b = true -> SimpleB rt mt true inr body ->
   forall after im ss s sig ss' fuel, routines_loaded rt mt im -> in_ret_ok inr (m_frames s) ->
   depth_ok (m_frames s) (zlength (m_stack s)) -> sim ss s ->
   code_at im (m_pc s) (c_stmt rt mt false after (SRepeat (LRange v a b) body)) ->
@@ -125,7 +125,7 @@ Print Assumptions C04_range_loop_compiled_runs_as_its_source_says.
 
 (* the same for `repeat n with v from a to b` (the preparation code computes the step (b - a) / (n - 1), 0 for a single pass) ... *)
 Theorem C04_interpolating_loop_compiled_runs_as_its_source_says :
-  forall rt mt (inr : bool) n v a b body, plain_rval mt n = true -> plain_rval mt a = true -> plain_rval mt b = true -> SimpleB rt mt true inr body ->
+  forall rt mt, bodies_ok rt mt -> forall (inr : bool) n v a b body, plain_rval mt n = true -> plain_rval mt a = true -> plain_rval mt b = true -> SimpleB rt mt true inr body ->
   forall after im ss s sig ss' fuel, routines_loaded rt mt im -> in_ret_ok inr (m_frames s) ->
   depth_ok (m_frames s) (zlength (m_stack s)) -> sim ss s ->
   code_at im (m_pc s) (c_stmt rt mt false after (SRepeat (LCountWith n (WRange v a b)) body)) ->
@@ -137,7 +137,7 @@ Print Assumptions C04_interpolating_loop_compiled_runs_as_its_source_says.
 (* ... and for `repeat n with v cycle [start]` (the step is a full turn in the current units / n; with n = 0 no step is computed
    and the body never runs) *)
 Theorem C04_cycle_loop_compiled_runs_as_its_source_says :
-  forall rt mt (inr : bool) n v start body, plain_rval mt n = true -> plain_opt mt start = true -> SimpleB rt mt true inr body ->
+  forall rt mt, bodies_ok rt mt -> forall (inr : bool) n v start body, plain_rval mt n = true -> plain_opt mt start = true -> SimpleB rt mt true inr body ->
   forall after im ss s sig ss' fuel, routines_loaded rt mt im -> in_ret_ok inr (m_frames s) ->
   depth_ok (m_frames s) (zlength (m_stack s)) -> sim ss s ->
   code_at im (m_pc s) (c_stmt rt mt false after (SRepeat (LCountWith n (WCycle v start)) body)) ->
